@@ -92,6 +92,10 @@ class Obj:
         return f'{self.cls.name}({", ".join(f"{k}={v!r}" for k, v in self.fields.items())})'
 
 
+class KeysView(list):
+    """dict.keys() / dict.items(): an ordered view that also supports the set operators."""
+
+
 class GenList(list):
     """What a generator function produced, computed eagerly: the yielded values in order; `pending` is the exception the
     body raised after them (the consumer meets it only when it asks for one more value than there are)."""
@@ -548,6 +552,8 @@ class Interp:
                 return self.call_function(m, [b], {}, self_val=a)
             raise Raised('TypeError', f'unsupported operand for {a.cls.name}')
         sets = (set, frozenset)
+        if (isinstance(a, KeysView) and isinstance(b, sets + (KeysView,))) or (isinstance(b, KeysView) and isinstance(a, sets)):
+            a, b = set(a), set(b)
         if isinstance(a, sets) and isinstance(b, sets):
             if isinstance(op, ast.BitOr):
                 return set(a) | set(b)
@@ -1163,9 +1169,9 @@ class Interp:
                     recv[k] = v
                 return None
             if name == 'items' and not args:
-                return [(k, v) for k, v in recv.items()]
+                return KeysView((k, v) for k, v in recv.items())
             if name == 'keys' and not args:
-                return list(recv.keys())
+                return KeysView(recv.keys())
             if name == 'values' and not args:
                 return list(recv.values())
             if name == 'setdefault' and 1 <= len(args) <= 2:
